@@ -384,12 +384,14 @@ def check_vector(vec, seed, full):
             f3 = formula(f'=AVERAGEIF({Rr[0]},{cf[0]},{Dr})')
             plan.append(('val', 'AVERAGEIF(range,crit,data)' + tag, f3, 'davg'))
             plan.append(('same', 'AVERAGEIFS=AVERAGEIF (one criterion)' + tag, (fa, f3), None))
-            if si == 0 and 1 < n <= 8:       # (a band of the sheet holds 8 rows)
+            if si == 0 and n > 1:
                 # the criteria range a column, the sum range a row of as many
                 # cells (and the other way round): whatever the answer, both
-                # forms give it
-                for (rh, rw) in ((n, 1), (1, n)):
-                    Rc, Wt = place(vals, rh, rw), place(weights, rw, rh)
+                # forms give it (the first cells of the vector: a band of the
+                # sheet holds 8 rows)
+                m5 = min(n, 5)
+                for (rh, rw) in ((m5, 1), (1, m5)):
+                    Rc, Wt = place(vals[:m5], rh, rw), place(weights[:m5], rw, rh)
                     ttag = f'|{rh}x{rw}'
                     plan.append(('same', 'SUMIFS=SUMIF (sum range transposed)' + ttag,
                                  (formula(f'=SUMIFS({Wt},{Rc},{cf[0]})'),
